@@ -174,6 +174,15 @@ fn rt<T: Serialize + for<'a> Deserialize<'a> + PartialEq + std::fmt::Debug>(what
     let js = no_panic("serde_json::to_string", || serde_json::to_string(v))?.map_err(|e| viol!("rt:json-serialize", "{what}: {e}"))?;
     let back: T = serde_json::from_str(&js).map_err(|e| viol!("rt:json-deserialize", "{what}: JSON {js} does not deserialise: {e}"))?;
     ensure!(back == *v, "rt:json-roundtrip", "{what}: JSON round trip changed the value: {back:?} != {v:?}");
+    // other human-readable sources: an owned JSON tree, a reader (no borrowed strings), pretty-printed text
+    let tree = serde_json::to_value(v).map_err(|e| viol!("rt:json-serialize", "{what}: {e}"))?;
+    let back: T = serde_json::from_value(tree).map_err(|e| viol!("rt:json-deserialize", "{what}: does not deserialise from a JSON value tree: {e}"))?;
+    ensure!(back == *v, "rt:json-roundtrip", "{what}: JSON value-tree round trip changed the value");
+    let back: T = serde_json::from_reader(js.as_bytes()).map_err(|e| viol!("rt:json-deserialize", "{what}: does not deserialise from a reader: {e}"))?;
+    ensure!(back == *v, "rt:json-roundtrip", "{what}: JSON reader round trip changed the value");
+    let pretty = serde_json::to_string_pretty(v).map_err(|e| viol!("rt:json-serialize", "{what}: {e}"))?;
+    let back: T = serde_json::from_str(&pretty).map_err(|e| viol!("rt:json-deserialize", "{what}: pretty JSON does not deserialise: {e}"))?;
+    ensure!(back == *v, "rt:json-roundtrip", "{what}: pretty JSON round trip changed the value");
     let pc = no_panic("postcard::to_allocvec", || postcard::to_allocvec(v))?.map_err(|e| viol!("rt:postcard-serialize", "{what}: {e}"))?;
     let back: T = postcard::from_bytes(&pc).map_err(|e| viol!("rt:postcard-deserialize", "{what}: postcard bytes do not deserialise: {e} ({} bytes)", pc.len()))?;
     ensure!(back == *v, "rt:postcard-roundtrip", "{what}: postcard round trip changed the value: {back:?} != {v:?}");
